@@ -125,6 +125,9 @@ def run(run):
                 contexts = collections.OrderedDict()
                 contexts["copies"] = lambda: [write("src/main/Copy%d.java" % i, ftext) for i in range(3)] and None
                 contexts["same-name-other-dir"] = lambda: write("other/F.java", ftext) and None
+                # paths that differ from F's only in the case of letters (a directory, the file name, the extension stays)
+                contexts["case-twin-paths"] = lambda: (write("src/Main/F.java", ftext), write("src/main/f.java", ftext),
+                                                        write("SRC/main/F.java", ftext)) and None
                 contexts["shared-fragments"] = lambda: write("src/G.java", "class G " + frag + "\n}}}\n") and None
                 contexts["empty-malformed-binary"] = lambda: (write("src/E.java", b""), write("src/M.java", b"class { int ( ; }} @@ \"unterminated"),
                                                                write("src/B.java", bytes(range(256)) * 4), write("src/N.txt", ftext), write("src/main/F.java.bak", ftext)) and None
